@@ -404,6 +404,7 @@ HIST_GROUPS = {"structural": 3, "stochastic": 2, "error": 1.5, "covariate": 1.5,
 
 
 _gen_counter = [0]
+_last_start = {"generated": False}
 
 
 def _generated_start(rng):
@@ -439,15 +440,18 @@ def build_start(rng, starts_allowed, nsteps, profile="plain", avoid=(), gen=0.0,
 
     S = _extra_starts()
     model = None
+    _last_start["generated"] = False
     if gen and rng.random() < gen:
         model, sname = _generated_start(rng)
         if model is not None and len(model.dependent_variables) == 1 and "ID" in model.dataset.columns:
             try:
+                _last_start["generated"] = True
                 return decorate(model, rng, profile), sname, []
             except CaseTimeout:
                 raise
             except Exception:
                 pass
+        _last_start["generated"] = False
     sname = rng.choice([s for s in starts_allowed if s in S])
     model = decorate(S[sname], rng, profile)
     A = histories.alphabet()
@@ -492,10 +496,14 @@ def apply_real(c, fn, label):
 def individual_parameters(model):
     import pharmpy.modeling as pm
 
-    try:
-        ps = [str(p) for p in pm.get_individual_parameters(model)]
-    except Exception:
-        ps = []
+    ps = []
+    if not _last_start["generated"]:
+        # (on generated control streams with deeply self-referential IF blocks get_individual_parameters can overflow
+        # the native stack of the symbolic engine and kill the worker: the fallback below is used for them)
+        try:
+            ps = [str(p) for p in pm.get_individual_parameters(model)]
+        except Exception:
+            ps = []
     names = set(assigned_names(model))
     ps = [p for p in ps if p in names]
     if not ps:
